@@ -849,6 +849,14 @@ class FnEmitter:
             # float -> integer: through F2I_* (uninterpreted by default like the float arithmetic feeding it;
             # bit-precise, with CBMC's conversion check, under ACXX_FLOAT_PRECISE)
             return 'F2I_%s(%s)' % ({'int64_t': 'i64', 'uint64_t': 'u64', 'int': 'i32', 'uint32_t': 'u32'}[self.ct(n)], self.expr(sub))
+        if ck == 'IntegralCast':
+            # unsigned -> signed of the SAME width is modular and well defined in C++20 (e.g. `is_neg ? -size : size`);
+            # narrowing conversions stay plain casts so that CBMC's conversion check still reports value changes
+            pair = (self.ct(sub), self.ct(n))
+            if pair == ('uint64_t', 'int64_t'):
+                return 'U2S_i64(%s)' % self.expr(sub)
+            if pair == ('uint32_t', 'int'):
+                return 'U2S_i32(%s)' % self.expr(sub)
         if ck in self.CAST_EXPLICIT:
             return '((%s)(%s))' % (self.ct(n), self.expr(sub))
         if ck in ('IntegralToBoolean', 'FloatingToBoolean', 'PointerToBoolean'):
@@ -1372,6 +1380,14 @@ class FnEmitter:
 
     def e_ArraySubscriptExpr(self, n):
         a, b = kids(n)
+        sa = self.strip_all(a)
+        while sa.get('kind') == 'ImplicitCastExpr':
+            sa = self.strip_all(kids(sa)[0])
+        if sa.get('kind') == 'CXXMemberCallExpr':
+            cal = self.strip(kids(sa)[0])
+            if cal.get('kind') == 'MemberExpr' and cal.get('name') in ('c_str', 'data') and self.ct(kids(cal)[0]) == 'str_t':
+                # s.c_str()[i]: the i-th character, i == size() being the terminator
+                return 'str_t__char_at(%s, %s)' % (self.expr(kids(cal)[0]), self.expr(b))
         return '%s[%s]' % (self.expr(a), self.expr(b))
 
     def e_CXXStdInitializerListExpr(self, n):
